@@ -11,7 +11,9 @@ func init() {
 		Scope: Scope{Include: []string{"pkg/mpc/sharing/vss/", "pkg/base/mat/module_valued.go", "pkg/mpc/base.go"}}})
 	register(&propSpec{ID: "C06", StoreScope: Scope{Include: []string{"pkg/mpc/redistribute/", "pkg/mpc/zero/hjky/"}}, MinStores: 3, MinFuncs: 8, Check: checkC06,
 		Scope: Scope{Include: []string{"pkg/mpc/redistribute/", "pkg/mpc/zero/hjky/"}}})
-	register(&propSpec{ID: "C07", Check: checkC07})
+	register(&propSpec{ID: "C07", MinFuncs: 150, MinFrame: 30, Check: checkC07,
+		Scope:      Scope{Include: []string{"pkg/mpc/", "pkg/ot/"}, Exclude: []string{"pkg/mpc/sharing/"}},
+		FrameScope: Scope{Include: []string{"pkg/mpc/", "pkg/ot/"}, Exclude: []string{"pkg/mpc/sharing/"}}})
 	register(&propSpec{ID: "C08", SeqScope: Scope{Include: []string{"pkg/proofs/"}}, MinSeq: 100, StoreScope: Scope{Include: []string{"pkg/proofs/"}}, MinStores: 3, FrameScope: Scope{Include: []string{"pkg/proofs/"}}, MinFrame: 8, MinFuncs: 100, Check: checkC08,
 		Scope: Scope{Include: []string{"pkg/proofs/"}}})
 	register(&propSpec{ID: "C09", StoreScope: Scope{Include: []string{"pkg/ot/", "pkg/mpc/rvole/"}}, MinStores: 5, FrameScope: Scope{Include: []string{"pkg/ot/", "pkg/mpc/rvole/"}}, MinFrame: 4, MinFuncs: 30, Check: checkC09,
@@ -22,7 +24,7 @@ func init() {
 		Scope: Scope{Include: []string{"pkg/network/"}}})
 	register(&propSpec{ID: "C12", MinFuncs: 100, Check: checkC12,
 		Scope: Scope{Include: []string{"pkg/"}, KeyRe: regexp.MustCompile(`\.UnmarshalCBOR$|^pkg/base/serde\.`)}})
-	register(&propSpec{ID: "C13", SeqScope: Scope{Include: []string{"pkg/base/curves/"}, Exclude: []string{"pkg/base/curves/impl/rfc9380/"}, KeyRe: regexp.MustCompile(`From|Unmarshal|SetBytes|Hash`)}, MinSeq: 40, MinFuncs: 60, Check: checkC13,
+	register(&propSpec{ID: "C13", SeqScope: Scope{Include: []string{"pkg/base/curves/"}, Exclude: []string{"pkg/base/curves/impl/rfc9380/"}}, MinSeq: 40, MinFuncs: 60, Check: checkC13,
 		Scope: Scope{Include: []string{"pkg/base/curves/"}, Exclude: []string{"pkg/base/curves/impl/rfc9380/"}}})
 	register(&propSpec{ID: "C15", SeqScope: Scope{Include: []string{"pkg/signatures/"}}, MinSeq: 60, MinFuncs: 30, Check: checkC15,
 		Scope: Scope{Include: []string{"pkg/signatures/"}}})
@@ -55,6 +57,7 @@ func genericGuards(r *Run) {
 		r.CheckFrame(r.Prop+".F1", r.Prop+"_frame.json", spec.FrameScope, spec.MinFrame)
 	}
 	r.CheckSelfComparison(r.Prop+".G9", spec.Scope)
+	r.CheckIgnoredTry(r.Prop+".G7", spec.Scope)
 	if r.Prop != "C11" {
 		checkLoopFlags(r, r.Prop+".G8", spec.Scope)
 	}
